@@ -91,6 +91,12 @@ def r1_evidence(ctx, f, rep, eff):
                 ip = calls[c['expr'][1]]
                 if q.is_param(ip['args'][0], 1) and q.is_param(ip['args'][1], 2):
                     tgt = q.cond_truth(c)
+        if tgt is None and ws:
+            # the identity test spelled inline: match self.direct.as_ref() { Some(d) => d.id() == from, None => false }
+            wi = [i for i, x in enumerate(p.events) if x is ws[0]][0]
+            # (also when bound to a local first - `let from_direct = match ..; if !from_direct { return false }` - since
+            # the branch on that local is a cond whose expression is the comparison itself)
+            tgt = q.direct_target_is(f, p, wi, 2)
         n += 1
         if ws:
             rep.check(num is True and tgt is True and ws[0]['value'] == ('const', 'bool', 1, 'true') and
